@@ -31,10 +31,15 @@ def to_smt2(formulas, get_model=False):
     return txt
 
 
+SEM = None
+
+
 def run_cli(cmd, text, timeout_s, workdir, tag):
     path = os.path.join(workdir, f"{tag}.smt2")
     with open(path, "w") as f:
         f.write(text)
+    if SEM is not None:
+        SEM.acquire()          # machine-wide cap on concurrent solver processes (tasks are generated and discharged in parallel processes)
     t = time.time()
     try:
         p = subprocess.run(cmd + [path], capture_output=True, text=True, timeout=timeout_s + 5)
@@ -43,6 +48,9 @@ def run_cli(cmd, text, timeout_s, workdir, tag):
             out = "timeout"
     except subprocess.TimeoutExpired:
         out = "timeout"
+    finally:
+        if SEM is not None:
+            SEM.release()
     dt = time.time() - t
     first = out.split("\n", 1)[0].strip() if out else "error"
     if first not in ("sat", "unsat", "unknown", "timeout"):
@@ -390,6 +398,15 @@ def _contains_quantifier(e):
     return False
 
 
+UNRELIABLE = set()           # normalised obligation names on which the small-model refuter answers `sat` although the obligation is proved
+STRICT_REFUTE = os.environ.get("PYVC_STRICT_REFUTE", "1") == "1"     # unconfirmed small-model counter-models are candidates, not refutations
+
+
+def normalise_name(name):
+    """obligation name without source line numbers and path ordinals (stable under edits elsewhere in the file)"""
+    return re.sub(r"@\d+", "@", re.sub(r"#\d+(\.\d+)?\]", "#]", name)).split("~")[0]
+
+
 class Verdict:
     def __init__(self, name, kind, status, backend, time_s, detail="", model=""):
         self.name, self.kind, self.status, self.backend, self.time_s, self.detail, self.model = name, kind, status, backend, time_s, detail, model
@@ -401,6 +418,52 @@ class Verdict:
         if self.model:
             d["model"] = self.model[:1500]
         return d
+
+
+def _sexprs(text):
+    """top-level s-expressions of `text` (as substrings)"""
+    out, depth, start = [], 0, None
+    for k, ch in enumerate(text):
+        if ch == "(":
+            if depth == 0:
+                start = k
+            depth += 1
+        elif ch == ")":
+            depth -= 1
+            if depth == 0 and start is not None:
+                out.append(text[start:k + 1])
+                start = None
+    return out
+
+
+def pin_model(full_text, model_out):
+    """The full query (quantified hypotheses + negated goal) with every constant it declares pinned to the value the small-model search
+    gave it.  `sat` on this text is a counter-model checked by the solver against *all* hypotheses, not only the instances used."""
+    body = model_out.split("\n", 1)[1] if "\n" in model_out else ""
+    tops = _sexprs(body)
+    if len(tops) == 1 and not tops[0].startswith("(define-fun"):
+        tops = _sexprs(tops[0][1:-1])
+    declared = set(re.findall(r"\(declare-fun\s+(\|[^|]*\||\S+)\s+\(\)", full_text))
+    pins = []
+    for e in tops:
+        m = re.match(r"\(define-fun\s+(\|[^|]*\||\S+)\s+\(\)\s+", e)
+        if not m or m.group(1) not in declared:
+            continue
+        rest = e[m.end():-1].strip()
+        parts = _sexprs(rest) if rest.startswith("(") else None
+        if parts:                       # "(Sort ...) value"
+            val = rest[len(parts[0]):].strip()
+        else:                           # "Sort value"
+            val = rest.split(None, 1)[1] if len(rest.split(None, 1)) == 2 else ""
+        sort_txt = parts[0] if parts else rest.split(None, 1)[0]
+        if sort_txt not in ("Int", "Real", "Bool"):
+            continue          # arrays: their values away from the explored indices are arbitrary in a small model; the solver completes them
+        if not val or "k!" in val or "!val!" in val:
+            continue
+        pins.append(f"(assert (= {m.group(1)} {val}))")
+    if not pins:
+        return None
+    return full_text.replace("(check-sat)", "\n".join(pins) + "\n(check-sat)", 1)
 
 
 def _tag(name):
@@ -536,12 +599,41 @@ def discharge(obls, timeout_s=20, jobs=16, all_backends=False, keep_dir=None, re
                     except Exception as ex:
                         detail[i].append(f"refute-build-error:{ex!r}"[:120])
                 cur = [i for i in cur if i in refute_text]
+                models = {}
                 for i, r, out, dt in run_phase(cur, z3new, "refute", lambda i: refute_text[i], min(timeout_s, 15)):
                     detail[i].append(f"refute(bound={bound})-z3-5.1:{r.split(':')[0]}")
                     t_used[i] += dt
                     if r == "sat":
-                        verdicts[i] = Verdict(obls[i].name, obls[i].kind, "refuted" if bound is not None else "candidate",
-                                              "z3-5.1(small-model)" if bound is not None else "z3-5.1(goal-directed)", t_used[i], model=out)
+                        if bound is None:
+                            verdicts[i] = Verdict(obls[i].name, obls[i].kind, "candidate", "z3-5.1(goal-directed)", t_used[i], model=out)
+                        else:
+                            models[i] = out
+                # a small-model counter-model counts as a refutation only once the solver accepts it against the complete query
+                pinned = {}
+                for i, out in models.items():
+                    try:
+                        full = raw_texts.get(i) or to_smt2(list(obls[i].hyps) + [z3.Not(obls[i].goal)])
+                        pinned[i] = pin_model(full, out)
+                    except Exception as ex:
+                        pinned[i] = None
+                        detail[i].append(f"pin-error:{ex!r}"[:100])
+                for i, r, out, dt in run_phase([i for i in models if pinned.get(i)], z3new, "confirm", lambda i: pinned[i], min(timeout_s, 15)):
+                    detail[i].append(f"confirm-model:{r.split(':')[0]}")
+                    t_used[i] += dt
+                    if r == "sat":
+                        verdicts[i] = Verdict(obls[i].name, obls[i].kind, "refuted", "z3-5.1(small-model, confirmed on the full query)", t_used[i], model=models[i])
+                    elif r == "unsat":
+                        detail[i].append("small-model counter-model rejected by the full query (spurious)")
+                for i in models:
+                    if verdicts[i] is None and not any(x.endswith("(spurious)") for x in detail[i]):
+                        nm = normalise_name(obls[i].name)
+                        if nm in UNRELIABLE:
+                            detail[i].append("refuter known to be unreliable on this obligation (calibration on the unchanged tree)")
+                            verdicts[i] = Verdict(obls[i].name, obls[i].kind, "candidate", "z3-5.1(small-model, unconfirmed)", t_used[i], model=models[i])
+                        elif STRICT_REFUTE:
+                            verdicts[i] = Verdict(obls[i].name, obls[i].kind, "candidate", "z3-5.1(small-model, unconfirmed)", t_used[i], model=models[i])
+                        else:
+                            verdicts[i] = Verdict(obls[i].name, obls[i].kind, "refuted", "z3-5.1(small-model, unconfirmed)", t_used[i], model=models[i])
         for i in range(n):
             if verdicts[i] is None:
                 verdicts[i] = Verdict(obls[i].name, obls[i].kind, "unknown", "-", t_used[i])
